@@ -37,7 +37,7 @@ def mutant_table():
 
 
 NOTES = {
-    "m10": "value-invisible (one element copied past the end of the buffer): needs the thorough tier, as planned -- verified: `./check C07 thorough` reports it on both extra substrates (ASan abort attributed to the journalled case; Miri: memory access beyond the end of the allocation)",
+    "m10": "value-invisible (one element copied past the end of the buffer). Missed by the value oracles of the first quick tier; the quick tier of the raw-pointer properties now includes the ASan worker and `./check C07 quick` / `./check C05 quick` report it (abort attributed to the journalled case). Also verified on the thorough tier: `./check C07 thorough` reports it on both extra substrates (ASan abort attributed to the journalled case; Miri: memory access beyond the end of the allocation)",
     "m12": "turned out to be an *equivalent* mutant: for the first row the prefix copy has read_p == write_p, so its length is irrelevant",
     "m09": "no longer survives the unit tests on the repaired tree",
 }
